@@ -364,6 +364,10 @@ ILLEGAL = [
     ("default-gap", "void func(int a = 1, int b)"),
     ("vector-without-argument", "void func(std::vector &a)"),
     ("template-arg-on-nontemplate", "void func(std::string<int> &a)"),
+    # (explicit diagnostic in declast: "Only single template argument accepted"; the second text is ill-formed C++)
+    ("template-two-arguments", "void func(std::vector<int,double> &a)"),
+    ("template-dangling-comma", "void func(std::vector<int,> &a)"),
+    ("template-two-arguments-result", "std::vector<int,double> func()"),
     ("illegal-attr-function", "void func() +intent(in)"),
     ("illegal-attr-argument", "void func(int a +readonly)"),
     ("illegal-attr-variable", "class Class1|int m_v +intent(in);"),
